@@ -4,6 +4,8 @@
   T  tag sequences: every sequence of <= k whole tags from TAGS -- unknown tags, orphaned
      else/elsif/when/break/continue/end tags, unbalanced and mis-nested blocks, partials that are
      themselves malformed, ``liquid`` tags with malformed lines.
+  Td the same tag sequences with literal text before / between / after the tags in every
+     combination (unbalanced blocks followed by text running to the end of the source, ...).
   E  expression sweep: every head of HEADS (one hole per head: the expression position of each
      standard tag, the tag-name position, filter-name and filter-argument positions) filled with
      every sequence of <= k tokens from ETOKENS -- the strict-only checks of the path / argument /
@@ -91,6 +93,31 @@ def tag_sequences(k: int, tags: list[str], first: int) -> Iterator[str]:
             yield f + "".join(combo)
 
 
+TEXT_LEAD, TEXT_BETWEEN, TEXT_TRAIL = "a ", " b\n", " c"
+
+
+def decorated_sequences(k: int, tags: list[str], first: int) -> Iterator[str]:
+    """Every sequence of 1..k tags (first = tags[first], the bare text "t" excluded) with every
+    non-empty choice of literal text positions: before the first tag, between each pair of
+    adjacent tags, and after the last tag running to the last character of the source."""
+    f = tags[first]
+    if f == "t":
+        return
+    rest = [t for t in tags if t != "t"]
+    for n in range(0, k):
+        for combo in itertools.product(rest, repeat=n):
+            seq = (f,) + combo
+            npos = len(seq) + 1
+            for mask in range(1, 1 << npos):
+                parts = [TEXT_LEAD if mask & 1 else ""]
+                for i, t in enumerate(seq):
+                    parts.append(t)
+                    if i + 1 < len(seq):
+                        parts.append(TEXT_BETWEEN if mask & (1 << (i + 1)) else "")
+                parts.append(TEXT_TRAIL if mask & (1 << len(seq)) else "")
+                yield "".join(parts)
+
+
 ETOKENS: list[str] = [
     "x", "y", "a", "v", "nosuch", "1", "-1", "1.5", "'s'", "'p'", "true", "nil", "empty",
     ".", "..", "[", "]", "(", ")", "|", ":", ",", "=", "==", "<", "-", "!", "?", "&",
@@ -112,11 +139,14 @@ HEADS: list[tuple[str, str]] = [
     ("D", "{% if x %}T{% elsif {E} %}S{% else %}F{% endif %}"),
     ("D", "{% if nosuch %}T{% elsif {E} %}S{% elsif x %}R{% endif %}"),
     ("D", "{% unless x %}T{% elsif {E} %}S{% endunless %}"),
+    ("D", "{% if nosuch %}T{% elsif {E} %}S{% endif %}a"),
     ("D", "{% if nosuch %}T{% else {E} %}F{% endif %}"),
     ("D", "{% for v in {E} %}{{ v }}{% endfor %}"),
     ("D", "{% for v in a {E} %}{{ v }}{% endfor %}"),
     ("D", "{% for {E} %}{{ v }}{% else %}E{% endfor %}"),
     ("D", "{% tablerow v in a {E} %}{{ v }}{% endtablerow %}"),
+    ("D", "{% for v in a reversed , , {E} %}{{ v }}{% endfor %}"),
+    ("D", "{% tablerow v in a limit: 2 , , {E} %}{{ v }}{% endtablerow %}"),
     ("D", "{% assign s = {E} %}{{ s }}"),
     ("D", "{% assign {E} %}{{ s }}{{ x }}"),
     ("D", "{% echo {E} %}"),
@@ -140,6 +170,8 @@ HEADS: list[tuple[str, str]] = [
     ("X", "{{ x if y else {E} }}"),
     ("X", "{{ x | default: {E} }}"),
     ("X", "{% with {E} %}{{ v }}{% endwith %}"),
+    ("X", "{% with v: 1 {E}: 2 %}{{ v }}{{ x }}{% endwith %}"),
+    ("X", "{% translate v: 1 {E}: 2 %}t{{ v }}{% endtranslate %}"),
     ("X", "{% macro m {E} %}<{{ v }}>{% endmacro %}{% call m %}"),
     ("X", "{% macro m v %}<{{ v }}>{% endmacro %}{% call m {E} %}"),
     ("X", "{% translate {E} %}t{{ x }}{% endtranslate %}"),
